@@ -47,9 +47,11 @@ func (r *Router) proxy(w http.ResponseWriter, req *http.Request) {
 	}
 	// ok, we got a response, let's pass it along
 	defer resp.Body.Close()
-	// copy over headers
+	// copy over headers, keeping each header's list of values (several Set-Cookie
+	// headers cannot be folded into one comma-joined value); an upstream header
+	// replaces a default set by our own middleware
 	for header, vals := range resp.Header {
-		w.Header().Set(header, strings.Join(vals, ","))
+		w.Header()[header] = append([]string(nil), vals...)
 	}
 	// copy over status code
 	w.WriteHeader(resp.StatusCode)
